@@ -240,21 +240,20 @@ def step (v : Variant) (cfg : Cfg) (active : Bool) (st : StubSt) (pc : Pc) (ev :
      | .toIdle carry => some (st, .idle carry)
      | .toRet => some (st, .ret)
      | .slicerGap rest offs base ts =>
-       (match cfg with
-        | .slicer _ _ delay =>
-          some (st, .nap (now + max (wrap64 (delay * us)) 0) (.slicerGap rest offs base ts))
-        | _ => none)
+       -- (a slicer gap only exists under a slicer; any other configuration is unreachable here
+       -- and gets the delay 0, so that the step is total)
+       let delay := match cfg with | .slicer _ _ d => d | _ => 0
+       some (st, .nap (now + max (wrap64 (delay * us)) 0) (.slicerGap rest offs base ts))
      | .bwLoop p carry =>
-       (match cfg with
-        | .bandwidth rate => some (st, bwLoop v rate p carry now)
-        | _ => none)
+       let rate := match cfg with | .bandwidth r => r | _ => -1
+       some (st, bwLoop v rate p carry now)
      | .limitAfter n =>
        (match cfg with
         | .limitData lim =>
           let st' := { st with transmitted := st.transmitted + n }
           if lim - st'.transmitted ≤ 0 then some ({ st' with closed := true }, .ret)
           else some (st', .idle 0)
-        | _ => none))
+        | _ => some (st, .idle 0)))
   -- timed waits
   | .nap _ (.latency c sleep delay), .timer _ =>
     (match v with
@@ -269,7 +268,7 @@ def step (v : Variant) (cfg : Cfg) (active : Bool) (st : StubSt) (pc : Pc) (ev :
         | some piece, some rest =>
           some (st, .out ⟨piece, p.ts⟩ (.bwLoop ⟨rest, p.ts⟩ (carry - 100 * ms)))
         | _, _ => some (st, .crash "slice bounds out of range (bandwidth)"))
-     | _ => none)
+     | _ => some (st, .out p (.toIdle carry)))     -- unreachable: an instalment wait only exists under bandwidth
   | .nap _ (.bwInstal p _), .interrupt now => some (st, .flush p (now + 5000 * ms))
   | .nap _ (.bwFinal p carry start), .timer now => some (st, .out p (.toIdle (carry - (now - start))))
   | .nap _ (.bwFinal p _ _), .interrupt now => some (st, .flush p (now + 5000 * ms))
